@@ -82,6 +82,14 @@ def main():
         return 2
     except Exception:
         traceback.print_exc()
+        if ctx.violations:
+            # failing inputs were already found on the real implementation before the harness tripped (typically over an
+            # output whose shape/type changed with the code): report them rather than hiding them behind exit 2
+            ctx.notes.append("the harness raised after recording violations: " + traceback.format_exc()[-600:])
+            try:
+                return ctx.finish()
+            except Exception:  # noqa: BLE001
+                traceback.print_exc()
         print("infrastructure error: unexpected exception in the harness")
         return 2
 
